@@ -16,8 +16,8 @@ LEVEL = "exploration"
 TECHNIQUE = ("runtime monitoring: full relay-view snapshot of a real TorState after every consensus document "
              "(ns/all at bootstrap, then NEWCONSENSUS events through the real protocol) compared with an independent "
              "dir-spec generator's reference view; identity codec round trips")
-LEVEL_TEXT = ("Held on the executions observed: thousands (quick) to ~10^5 (thorough) generated sequences of 1-5 consensus "
-              "documents over pools of 3-40 relays; after every document every index, every attribute the statement names, "
+LEVEL_TEXT = ("Held on the executions observed: ~3.3k (quick) to ~190k (thorough) generated sequences of 1-5 consensus "
+              "documents (~9k / ~540k documents) over pools of 3-40 relays, plus 20k / 500k identity-codec round trips; after every document every index, every attribute the statement names, "
               "every identity/nickname lookup form and the guard/authority collections were compared with the reference "
               "view. Sampling, not a proof for unexplored documents.")
 LEVEL_NOTE = ("Trusted: vf.refs.consensus (generator + view, self-tested against an independent reader and the standard "
